@@ -94,7 +94,7 @@ macro "p8" : tactic => `(tactic| repeat' (first
   | simp
   | split))
 
-theorem p8_stepOffer (s : Stack) (tid : Nat) (t : TaskSt) (i : Nat) (hp : P8c (pi8 s)) : P8c (pi8 (s.stepOffer tid t i)) := by
+theorem p8_stepOffer (s : Stack) (tid : Tid) (t : TaskSt) (i : Nat) (hp : P8c (pi8 s)) : P8c (pi8 (s.stepOffer tid t i)) := by
   unfold stepOffer
   p8
   all_goals (by_cases hc : s.tm.cyclicOfferDelay = 0 <;> simp only [hc, if_true, if_false] <;> p8)
@@ -102,7 +102,7 @@ theorem p8_stepOffer (s : Stack) (tid : Nat) (t : TaskSt) (i : Nat) (hp : P8c (p
 theorem p8_instStop (s : Stack) (i : Nat) (hp : P8c (pi8 s)) : P8c (pi8 (s.instStop i)) := by
   unfold instStop
   p8
-  all_goals (rename_i tid _; by_cases hc : (s.cancelTask tid).tm.cyclicOfferDelay = 0 <;> simp only [hc, if_true, if_false] <;> p8)
+  all_goals (rename_i tid _; by_cases hc : (s.cancelTask (.offer i, tid)).tm.cyclicOfferDelay = 0 <;> simp only [hc, if_true, if_false] <;> p8)
 
 theorem p8_instHandleSubscribe (s : Stack) (i : Nat) (e : SDEntry) (a : Addr) (hp : P8c (pi8 s)) :
     P8c (pi8 (s.instHandleSubscribe i e a).1) := by
@@ -141,11 +141,11 @@ theorem p8_subscriberStop (s : Stack) (b : Bool) (hp : P8c (pi8 s)) : P8c (pi8 (
   unfold subscriberStop
   p8
 
-theorem p8_stepSubscribe (s : Stack) (tid : Nat) (t : TaskSt) (hp : P8c (pi8 s)) : P8c (pi8 (s.stepSubscribe tid t)) := by
+theorem p8_stepSubscribe (s : Stack) (tid : Tid) (t : TaskSt) (hp : P8c (pi8 s)) : P8c (pi8 (s.stepSubscribe tid t)) := by
   unfold stepSubscribe
   p8
 
-theorem p8_stepFind (s : Stack) (tid : Nat) (t : TaskSt) (hp : P8c (pi8 s)) : P8c (pi8 (s.stepFind tid t)) := by
+theorem p8_stepFind (s : Stack) (tid : Tid) (t : TaskSt) (hp : P8c (pi8 s)) : P8c (pi8 (s.stepFind tid t)) := by
   unfold stepFind
   p8
 
